@@ -4,6 +4,10 @@
 //	input : <impl> <cap0> <op>;<op>;...        (anything after '@' in an op is ignored)
 //	        impl = array | linked | cow | conc-<impl>
 //	        op   = g:<i> | a:<x>,<y>,.. | i:<idx>:<x> | s:<idx>:<x> | d:<idx> | l | c | r:<stop> | v
+//	        an op prefixed with `~` is NOT followed by the observers (sparse observation): only
+//	        its own result is printed, as <res>|~|~|<cap or ->|1.  For ArrayList Cap() is still
+//	        read (alone) because the model needs it as its growth oracle; for the other
+//	        implementations nothing at all is called between two unobserved operations.
 //	output: <res>|<len>|<nil>:<contents>|<cap>|<fresh>;...   one line per history, stops after a panic
 //
 // After EVERY operation the list is observed through Len(), AsSlice() and Cap().  Every slice
@@ -204,10 +208,22 @@ func runHistory(impl string, cap0 int, ops []string) string {
 		if k > 0 {
 			sb.WriteByte(';')
 		}
+		observed := true
+		if strings.HasPrefix(op, "~") {
+			observed, op = false, op[1:]
+		}
 		res := doOp(l, op)
 		if res == "panic" {
 			sb.WriteString("panic")
 			break
+		}
+		if !observed {
+			c := "-"
+			if strings.HasSuffix(impl, "array") {
+				c = capOf(l)
+			}
+			sb.WriteString(res + "|~|~|" + c + "|1")
+			continue
 		}
 		fresh := true
 		if held != nil {
